@@ -348,6 +348,32 @@ def abortCurrent (s : State) : State :=
   | some t => (step s (.abort t)).1
   | none => s
 
+def outs : State → List Op → List Out
+  | _, [] => []
+  | s, o :: os => (step s o).2.2 :: outs (step s o).1 os
+
+/-- argument of one `store` call -/
+structure StoreArg where
+  oid : Oid
+  serial : Tid
+  dlen : Nat
+  tag : Nat
+deriving DecidableEq, Repr
+
+/-- an ordinary transaction: begin, stores, vote, finish -/
+def cleanTxn (t : TxnId) (tid : Tid) (st ul dl el : Nat) (stores : List StoreArg) : List Op :=
+  .begin t tid st ul dl el :: (stores.map fun a => Op.store t a.oid a.serial a.dlen a.tag)
+    ++ [.vote t, .finish t]
+
+/-- the records such a transaction appends when it starts from `s` -/
+def mkRecs (s : State) (tid : Tid) (stores : List StoreArg) : List Rec :=
+  stores.map fun a =>
+    { oid := a.oid, tid := tid,
+      prev := (match lookup a.oid s.index with
+               | some (_, p) => p
+               | none => 0),
+      del := false, dlen := a.dlen, tag := a.tag }
+
 /-! ### MappingStorage, optionally wrapped in a BlobStorage -/
 
 namespace Mapping
